@@ -302,6 +302,16 @@ func (bc *boundsChecker) checkSlice(rule string, fn *ssa.Function, a *Arith, x *
 		bc.s.OKTrivial(rule, key, m.InstrPos(x), "TRUSTED for %v (other parts proven): %s", need, t.reason)
 		return
 	}
+	// the same trusted argument, recognised by construct instead of by function name: in the lexer package,
+	// l.input[snapshot of l.pos : l.pos] (the text a scanner went over, wherever that scanner now lives)
+	if shortPkg(fnPkgPath(fn)) == "lexer" && x.Low != nil && x.High != nil &&
+		strings.HasSuffix(fieldPathOf(x.X), ".input") && fieldPathOf(x.Low) == ".pos" && fieldPathOf(x.High) == ".pos" {
+		t := trustedPart{[]string{"high <= len", "low <= high"}, lexerPosInvariant}
+		if t.covers(need) {
+			bc.s.OKTrivial(rule, key, m.InstrPos(x), "TRUSTED for %v (other parts proven): %s", need, t.reason)
+			return
+		}
+	}
 	bc.s.Violation(rule, key, m.InstrPos(x), "slice expression %s[%s:%s] in %s: not proven on every path: %s; out-of-range bounds panic",
 		valueDesc(x.X), optDesc(x.Low), optDesc(x.High), fnKey(fn), strings.Join(need, ", "))
 }
